@@ -164,16 +164,51 @@ class Res:
         return self
 
 
+def _origin_in_repo(tb):
+    """(file, function) of the innermost frame if the exception was raised inside the code under test, else None"""
+    import traceback
+    frames = traceback.extract_tb(tb)
+    if frames and os.path.abspath(frames[-1].filename).startswith(REPO + os.sep):
+        return os.path.relpath(frames[-1].filename, REPO), frames[-1].name
+    # numpy/scipy raising on behalf of a flowdyn call (e.g. LinAlgError from a singular implicit system)
+    for fr in reversed(frames):
+        fn = os.path.abspath(fr.filename)
+        if fn.startswith(REPO + os.sep):
+            return os.path.relpath(fn, REPO), fr.name
+        if fn.startswith(VERIF + os.sep):
+            return None
+    return None
+
+
 def _call(args):
     fn, shard = args
     try:
         return fn(shard)
-    except Exception:
+    except Exception as e:
+        import base64
+        import pickle
         import traceback
         r = Res()
+        org = _origin_in_repo(e.__traceback__)
+        if org is not None:
+            # an exception raised inside flowdyn that the property module did not anticipate is an observation about the code, not a harness failure
+            pid = fn.__module__.rsplit(".", 1)[-1].upper()
+            r.violation("%s/uncaught-exception/%s:%s/%s" % (pid, org[0], org[1], type(e).__name__),
+                        "%s raised inside the code under test while exploring shard %s: %s" % (type(e).__name__, repr(shard)[:200], traceback.format_exc()[-900:]),
+                        {"kind": "shard-exception", "fn": fn.__name__, "module": fn.__module__, "shard_pickle": base64.b64encode(pickle.dumps(shard)).decode()})
+            return r
         r.violation("HARNESS/exception", traceback.format_exc()[-1500:], {"shard": repr(shard)[:300]})
         r.harness_error = True
         return r
+
+
+def replay_shard_exception(case):
+    import base64
+    import importlib
+    import pickle
+    fn = getattr(importlib.import_module(case["module"]), case["fn"])
+    out = _call((fn, pickle.loads(base64.b64decode(case["shard_pickle"]))))
+    return [(v["site"], v["what"]) for v in out.viols if "/uncaught-exception/" in v["site"]]
 
 
 class Ctx:
@@ -258,8 +293,9 @@ def finish(ctx, module, level, rule, assumptions, extra_cov=None):
             continue
         # every candidate is re-executed twice on fresh objects before it is believed
         try:
-            r1 = module.replay(unfloat(v["case"]))
-            r2 = module.replay(unfloat(v["case"]))
+            rp = replay_shard_exception if v["case"].get("kind") == "shard-exception" else module.replay
+            r1 = rp(unfloat(v["case"]))
+            r2 = rp(unfloat(v["case"]))
         except Exception as e:  # pragma: no cover
             import traceback
             ctx.harness_errors.append("replay of %s raised: %s" % (site, traceback.format_exc()[-800:]))
